@@ -5,7 +5,7 @@ from ..e1 import engine, gen, oracles, reduce
 RULE = ("(programs / with-sync-reentry) yield-only programs, and programs whose tasks also call synchronously into asynq (re-entry comb), with tasks awaited by several parents, already-computed futures yielded again, orphans (created, never yielded), empty "
         "structures, failures; non-trivial = (a shared/re-yielded future, or a yield of >= 3 sibling tasks of unequal length) and >= 2 flushes. "
         "(deep-chain) chains of d awaiting tasks, d up to 1 500 (quick) / 100 000 (thorough), far beyond the recursion limit; every case is non-trivial. "
-        "distinct = distinct case JSON")
+        "distinct = distinct case JSON. Library tools occur as leaves; deep chains also continue through a tool at every level.")
 ASSUMPTIONS = ["start order is asserted only for tasks first scheduled by a yield in list/tuple positions (dict values are not constrained by the property)",
                "liveness is a bounded check: a worker making no progress for VERIF_STALL_S seconds is killed and the case re-run alone before a hang is reported"]
 
